@@ -1530,3 +1530,26 @@ package stackage
 //@ ensures[C12:Cond.Len] r != nil ==> result == ite(ex == nil, 0, ite(isStackLike(ex), ite(stackOf(ex) == nil, 0, ulen(stackOf(ex))), 1))
 //@ ensures[C17:Cond.Len.nil] r == nil ==> result == 0
 //@ modifies nothing
+
+// ---------------------------------------------------------------------
+// C02: rendering helpers
+
+//@ func padValue
+//@ tags C02
+//@ ensures[C02:padValue] result == padS(do, value)
+//@ modifies nothing
+
+//@ func foldValue
+//@ tags C02
+//@ ensures[C02:foldValue] s == foldS(do, value)
+//@ modifies nothing
+
+//@ func condenseWHSP @spec
+//@ tags C02
+//@ safety C02
+//@ ensures[C02:condense] result == condense(b)
+//@ ensures[C02:condense.nogrowth] len(result) <= len(b)
+//@ modifies nothing
+//@ loop 1 invariant 0 <= i && i <= len(b)
+//@ loop 1 invariant cw(b, 0, false) == builder ++ cw(b, i, last)
+//@ loop 1 invariant len(builder) <= i
